@@ -140,6 +140,82 @@ def check_bounds(prog, res, tier):
     res.coverage["decoders"] = names
 
 
+# ---- DB.6
+STR_UNITS = ("src/core/der.c", "src/core/oid.c", "src/core/hex.c", "src/core/b64.c", "src/core/dec.c")
+VALIDATORS = re.compile(r"^(hex|b64|dec|oid)IsValid$|^strIsPrintable$|^strIsNumeric$|^strIsAlphanumeric$")
+
+
+def check_strings(prog, res, contracts):
+    """DB.6: functions that take an arbitrary NUL-terminated string read s[i] only when s[0..i-1] are known non-zero
+    (the string's readable extent grows with every character found non-zero; strLen gives it at once); a function that
+    reports how many characters it matched has seen them non-zero.  Functions whose string was accepted by a validator
+    (hexIsValid(s) in an ASSERT or an early return) rely on that validator's guarantee and are out of this rule."""
+    names, skipped = [], {}
+    for f in prog.all_funcs():
+        if f.relfile not in STR_UNITS or f.body is None or not db.find_str_pairs(f):
+            continue
+        strs = {p.ptr_id for p in db.find_str_pairs(f)}
+        pre = [c.get("callee") for c in ir.calls(f.body) if VALIDATORS.match(c.get("callee") or "") and c.get("callee") != f.name and
+               any(strip(a).get("k") == "Ref" and strip(a).get("id") in strs for a in c["a"])]
+        if pre:
+            skipped[f.name] = "input accepted by %s first" % pre[0]
+            continue
+        if not any(n.get("k") in ("Index", "Un") for n in walk(f.body)):
+            continue
+        names.append(f.name)
+    con = dict(contracts)
+    for n in names:
+        f = [g for g in prog.all_funcs() if g.name == n][0]
+        if f.ret.get("t") == "size_t" and not db.find_pairs(f) and \
+                any(x.get("k") == "Return" and x.get("e") is not None and int_val(x["e"]) == SIZE_MAX for x in walk(f.body)):
+            con[n] = set(con.get(n, set())) | {"strconsumed"}
+    nsites = 0
+    for n in sorted(names):
+        f = [g for g in prog.all_funcs() if g.name == n][0]
+        A = db.Analyzer(f, prog, con, strings=True)
+        try:
+            A.run()
+        except AnalysisBroken as e:
+            raise
+        str_names = {p.name for p in A.pairs.values() if p.kind == "str"}
+        for (line, text), v in sorted(A.reads.items()):
+            if not any(re.search(r"\b%s\b" % re.escape(sn), text) for sn in str_names):
+                continue
+            nsites += 1
+            if all(v):
+                res.proved("DB.6-string-read-before-terminator", function=n, file=f.relfile, line=line, construct=text,
+                           detail="every smaller index was found non-zero on each of the %d abstract state(s)" % len(v))
+            elif (n, text) in FROZEN_STR:
+                res.undecided("DB.6-string-read-before-terminator", function=n, file=f.relfile, line=line, construct=text,
+                              detail=FROZEN_STR[(n, text)])
+            else:
+                res.violation("DB.6-string-read-before-terminator", function=n, file=f.relfile, line=line,
+                              construct="read `%s` may lie beyond the string's terminator" % text,
+                              detail="on %d of %d abstract state(s) the characters before this index are not all known to be "
+                                     "non-zero: for a shorter string the function reads past the terminating NUL" %
+                                     (v.count(False), len(v)))
+        for (line, text), v in sorted(A.srets.items()):
+            nsites += 1
+            if all(v):
+                res.proved("DB.6-string-read-before-terminator", function=n, file=f.relfile, line=line, construct="return %s" % text,
+                           detail="the reported number of matched characters were all seen non-zero")
+            else:
+                res.violation("DB.6-string-read-before-terminator", function=n, file=f.relfile, line=line,
+                              construct="return %s: matched characters not all seen" % text,
+                              detail="callers advance the string by this count; it may step over the terminator")
+    res.floor("string read sites", nsites, 25)
+    res.coverage["string_functions"] = sorted(names)
+    res.coverage["string_functions_validated_input"] = skipped
+
+
+# reads whose safety needs reasoning outside the linear domain: (function, read) -> reason
+FROZEN_STR = {
+    ("b64IsValid", "b64[(--len - 1)]"): "len % 4 == 0 and len >= 1 give len >= 4: divisibility is outside the linear domain",
+    ("b64IsValid", "b64[(len - 1)]"): "len >= 2 follows from len % 4 in {2, 3}: divisibility is outside the linear domain",
+    ("b64IsValid", "*b64"): "the loop runs over the len characters counted by strLen after the padding was taken off; the relation is lost with the divisibility facts above",
+}
+
+
 # ---- DB.5
 class NulClient(ir.Client):
     """state: the expressions known to be non-zero on the path (as printed by ir.show)"""
@@ -341,7 +417,8 @@ FROZEN = {
     "derTSEQEncStop": "the anchor's tag and length were encoded successfully by derTSEQEncStart, so derTEnc/derLEnc of the same values cannot fail",
     "derTSEQDecStop": "the anchor's tag and length were decoded from valid DER by derTSEQDecStart, so re-encoding them cannot fail",
 }
-FROZEN_UNDECIDED = [{"rule": "DB.2-result-examined", "function": k, "construct": "encoder result of anchor fields"} for k in FROZEN]
+FROZEN_UNDECIDED = [{"rule": "DB.2-result-examined", "function": k, "construct": "encoder result of anchor fields"} for k in FROZEN] + \
+    [{"rule": "DB.6-string-read-before-terminator", "function": fn, "construct": txt} for (fn, txt) in FROZEN_STR]
 
 
 def check_discipline(prog, res):
@@ -378,6 +455,7 @@ def run(tier, seed=0):
     check_bounds(prog, res, tier)
     check_discipline(prog, res)
     check_charset(prog, res)
+    check_strings(prog, res, der_contracts(prog))
     res.coverage["explanation"] = (
         "DB.1/DB.3/DB.4: relational abstract interpretation (linear inequalities with Fourier-Motzkin implication, bounded "
         "disjunction, template + interval-propagation join, widening) of the DER and APDU leaf decoders and of the container "
